@@ -61,6 +61,11 @@ def build_engine(spec, weights=None):
         e.rule_blocks.append(fl.RuleBlock(rb.get("name", "rb%d" % bi), description=rb.get("description", ""), enabled=rb.get("enabled", True),
                                           conjunction=mk(rb.get("conjunction")), disjunction=mk(rb.get("disjunction")),
                                           implication=mk(rb.get("implication")), activation=mk(rb.get("activation", ("General",))), rules=rules))
+    if spec.get("share_defuzzifier"):
+        # every output variable that has a defuzzifier holds the same object (of the first that has one)
+        have = [ov for ov in e.output_variables if ov.defuzzifier is not None]
+        for ov in have[1:]:
+            ov.defuzzifier = have[0].defuzzifier
     if spec.get("share_components"):
         # one defuzzifier / aggregation / operator object installed everywhere (what Engine.configure does)
         first = e.output_variables[0]
